@@ -78,7 +78,8 @@ func c12Init() {
 	c12World = w
 }
 
-func newC12Sys(preB3 bool) *c12Sys {
+func newC12Sys(pre string) *c12Sys {
+	preB3 := strings.Contains(pre, "b3")
 	c12Init()
 	w := c12World
 	m, err := larking.NewMux(larking.FilesOption(w.reg))
@@ -90,10 +91,21 @@ func newC12Sys(preB3 bool) *c12Sys {
 		panic(err)
 	}
 	s.b3 = w.newBackend("b3", []protoreflect.FileDescriptor{w.f2}, []string{"vb.S2"})
+	regS2 := func() {
+		if err := m.VerifRegisterService(s.gsd2, dyn.NewServer(s.s2)); err != nil {
+			panic(err)
+		}
+	}
+	if pre == "s2,b3" {
+		regS2()
+	}
 	if preB3 {
 		if err := m.RegisterConn(context.Background(), s.b3.Conn()); err != nil {
 			panic(err)
 		}
+	}
+	if pre == "b3,s2" {
+		regS2()
 	}
 	s.initFP = larking.VerifFingerprint(m.VerifSnapshot())
 	s.snaps = []snapRec{{m.VerifSnapshot(), s.initFP}}
@@ -285,7 +297,9 @@ func c12Thread(client int, name string, ops []c12Op) e3Thread {
 	}}
 }
 
-func c12Check(initB3 bool) func(sys any, x *sched.S) []e3Fail {
+func c12Check(pre string) func(sys any, x *sched.S) []e3Fail {
+	initB3 := strings.Contains(pre, "b3")
+	initS2 := strings.Contains(pre, "s2")
 	return func(sys any, x *sched.S) []e3Fail {
 		s := sys.(*c12Sys)
 		var fails []e3Fail
@@ -301,8 +315,8 @@ func c12Check(initB3 bool) func(sys any, x *sched.S) []e3Fail {
 		}
 		// linearizability against the registry specification
 		model := c12Model
-		if initB3 {
-			model.Init = func() interface{} { return c12State{B3: true} }
+		if initB3 || initS2 {
+			model.Init = func() interface{} { return c12State{B3: initB3, S2Local: initS2} }
 		}
 		if res := porcupine.CheckOperations(model, s.ops); !res {
 			var h []string
@@ -333,49 +347,58 @@ func c12Check(initB3 bool) func(sys any, x *sched.S) []e3Fail {
 }
 
 func c12Scenarios(thorough bool) []*e3Scenario {
-	mk := func(name, desc string, preB3 bool, threads ...e3Thread) *e3Scenario {
+	mk := func(name, desc string, pre string, threads ...e3Thread) *e3Scenario {
 		return &e3Scenario{Name: name, Desc: desc, Threads: threads, PoolPoints: false,
 			Setup: func() any {
-				s := newC12Sys(preB3)
+				s := newC12Sys(pre)
 				vatomic.StoreHook = func(v any) {
 					s.snaps = append(s.snaps, snapRec{v, larking.VerifFingerprint(v)})
 				}
 				return s
 			},
-			Check:    c12Check(preB3),
+			Check:    c12Check(pre),
 			Teardown: func(sys any) { vatomic.StoreHook = nil; sys.(*c12Sys).b3.Conn().Close() },
 		}
 	}
 	rq := func(svc, via string) c12Op { return c12Op{"req", svc, via} }
 	scs := []*e3Scenario{
-		mk("register-vs-2-readers", "RegisterService(S2) while one reader asks S2 by route then implicit route and another asks S2 by gRPC then S1", false,
+		mk("register-vs-2-readers", "RegisterService(S2) while one reader asks S2 by route then implicit route and another asks S2 by gRPC then S1", "",
 			c12Thread(0, "writer", []c12Op{{op: "regS2"}}),
 			c12Thread(1, "reader1", []c12Op{rq("S2", "/route"), rq("S2", "/implicit")}),
 			c12Thread(2, "reader2", []c12Op{rq("S2", "/grpc"), rq("S1", "/route")})),
-		mk("failing-registration", "a registration that fails on its second method while readers probe S1 and the half-registered S3", false,
+		mk("failing-registration", "a registration that fails on its second method while readers probe S1 and the half-registered S3", "",
 			c12Thread(0, "writer", []c12Op{{op: "regBad"}}),
 			c12Thread(1, "reader1", []c12Op{rq("S3", "/route"), rq("S1", "/route")}),
 			c12Thread(2, "reader2", []c12Op{rq("S3", "/implicit"), rq("S1", "/grpc")})),
-		mk("registerconn-vs-readers", "RegisterConn(b3:S2) (reflection against the scripted back-end) while readers ask S2 and S1", false,
+		mk("registerconn-vs-readers", "RegisterConn(b3:S2) (reflection against the scripted back-end) while readers ask S2 and S1", "",
 			c12Thread(0, "writer", []c12Op{{op: "regB3"}}),
 			c12Thread(1, "reader1", []c12Op{rq("S2", "/implicit"), rq("S2", "/route")}),
 			c12Thread(2, "reader2", []c12Op{rq("S1", "/implicit"), rq("S2", "/grpc")})),
-		mk("dropconn-vs-readers", "DropConn(b3) of a registered connection while readers ask S2 twice and S1", true,
+		mk("dropconn-vs-readers", "DropConn(b3) of a registered connection while readers ask S2 twice and S1", "b3",
 			c12Thread(0, "writer", []c12Op{{op: "dropB3"}}),
 			c12Thread(1, "reader1", []c12Op{rq("S2", "/route"), rq("S2", "/route")}),
 			c12Thread(2, "reader2", []c12Op{rq("S2", "/grpc"), rq("S1", "/route")})),
-		mk("two-writers", "RegisterService(S2) and RegisterConn(b3:S2) race (two owners of S2) while a reader asks S2 three ways", false,
+		mk("two-writers", "RegisterService(S2) and RegisterConn(b3:S2) race (two owners of S2) while a reader asks S2 three ways", "",
 			c12Thread(0, "writer1", []c12Op{{op: "regS2"}}),
 			c12Thread(1, "writer2", []c12Op{{op: "regB3"}}),
 			c12Thread(2, "reader", []c12Op{rq("S2", "/route"), rq("S2", "/implicit"), rq("S2", "/grpc")})),
-		mk("register-then-drop", "one writer registers b3 and drops it again, another fails a registration, a reader asks S2 twice and S1", false,
+		mk("register-then-drop", "one writer registers b3 and drops it again, another fails a registration, a reader asks S2 twice and S1", "",
 			c12Thread(0, "writer1", []c12Op{{op: "regB3"}, {op: "dropB3"}}),
 			c12Thread(1, "writer2", []c12Op{{op: "regBad"}}),
 			c12Thread(2, "reader", []c12Op{rq("S2", "/route"), rq("S2", "/route"), rq("S1", "/implicit")})),
 	}
+	scs = append(scs,
+		mk("drop-older-of-two-owners", "S2 is served by b3 (registered first) and a local service; DropConn(b3) runs while readers ask S2", "b3,s2",
+			c12Thread(0, "writer", []c12Op{{op: "dropB3"}}),
+			c12Thread(1, "reader1", []c12Op{rq("S2", "/route"), rq("S2", "/implicit")}),
+			c12Thread(2, "reader2", []c12Op{rq("S2", "/grpc"), rq("S2", "/route")})),
+		mk("drop-newer-of-two-owners", "S2 is served by a local service (registered first) and b3; DropConn(b3) then RegisterConn(b3) again while a reader asks S2", "s2,b3",
+			c12Thread(0, "writer", []c12Op{{op: "dropB3"}, {op: "regB3"}}),
+			c12Thread(1, "reader1", []c12Op{rq("S2", "/route"), rq("S2", "/grpc")}),
+			c12Thread(2, "reader2", []c12Op{rq("S2", "/implicit"), rq("S1", "/route")})))
 	if thorough {
 		scs = append(scs,
-			mk("two-writers-two-readers", "RegisterService(S2) and DropConn(b3) race while two readers ask", true,
+			mk("two-writers-two-readers", "RegisterService(S2) and DropConn(b3) race while two readers ask", "b3",
 				c12Thread(0, "writer1", []c12Op{{op: "regS2"}}),
 				c12Thread(1, "writer2", []c12Op{{op: "dropB3"}}),
 				c12Thread(2, "reader1", []c12Op{rq("S2", "/route"), rq("S2", "/implicit")}),
